@@ -86,7 +86,8 @@ def path_obligations():
         sp = [e for e in calls if e[2] == "clf.set_params"]
         ft = [e for e in calls if e[2] == "clf.fit"]
         ob("init: the path restarts from an unpenalised fit: set_params(alpha=0) then fit(X, y)",
-           len(sp) == 1 and sp[0][4] == (("alpha", fx.C(0)),) and len(ft) == 1 and ft[0][3] == (V("X"), V("y")) and not ft[0][5])
+           len(sp) >= 1 and sp[0][4] == (("alpha", fx.C(0)),) and len(ft) == 1 and ft[0][3] == (V("X"), V("y")) and not ft[0][5]
+           and all(e[4] == (("alpha", ("attr", CLF, "alpha")),) and not e[5] and names.index("SGDOptimizer") < calls.index(e) for e in sp[1:]))
         reads = [i for i, e in enumerate(ev) if e[0] == "read" and e[1] == CLF and e[2] == "alpha"]
         ob("init: alpha0 is the model's alpha, read before it is reset", bool(reads) and bool(sp) and reads[0] < ev.index(sp[0]))
         gw = [e for e in calls if e[2] == "clf._get_weights"]
@@ -144,7 +145,8 @@ def path_obligations():
         ob("history: n_features gets clf._n_selected_features().item()", ok_n and bool(nsel_calls))
         pen = apps["group_lasso_penalties"][0][3][0]
         ob("history: penalties gets clf._group_lasso_penalty()", pen[:1] == ("callres",) and pen[2] == "clf._group_lasso_penalty")
-        after = ev[x2[-1]:]
+        x1 = [i for i, e in enumerate(ev) if e[0] == "loop-exit" and e[1] == L1]
+        after = ev[x2[-1]:(x1[-1] if x1 else len(ev))]
         muts = [e for e in after if (e[0] == "call" and e[2] in MUTATORS) or (e[0] == "store" and e[1] == CLF)]
         ob("history: no weight update, fit or parameter change between the last epoch and the end of the step "
            "(recorded counts / penalties are those of the model at that step and of the next guard test)", not muts,
